@@ -411,6 +411,7 @@ func gen(seed uint64, tier string) {
 	emptyMemberCases(r, n/60, emit)
 	affineCases(r, n/25, emit)
 	quadCases(r, n/25, emit)
+	knownCorpus(emit)
 }
 
 // scaleFor picks the coordinate scale of a case: mostly 1, otherwise a power of two.
